@@ -383,17 +383,22 @@ def job_helpers():
     # params_from_backend with a concrete dyadic backend and symbolic duration
     L = Sym(z3.Real('L'))
     pre = [L.t >= 0, L.t <= 1e6]
-    with frame_patches():
-        leaves = core.explore(lambda: FR.params_from_backend(obs_length=L, sample_rate=1024.0, num_branches=8, fftlength=16, int_factor=2), pre, cap=4)
-    for li, leaf in enumerate(leaves):
-        pdict = leaf.value
-        dfv, dtv = 1024.0 / 8 / 16, 2 / (1024.0 / 8 / 16)
-        T = lift(pdict['tchans'])
-        r, m = core.check(pre + leaf.pc + [z3.Or(lift(pdict['df']) != RV(dfv), lift(pdict['dt']) != RV(dtv), z3.Not(z3.And(T * RV(dtv) <= L.t, L.t < (T + 1) * RV(dtv))))], timeout_ms=60000)
-        recs.append(q(f"C20:helpers:params_from_backend:leaf{li}", r))
-        if r == 'sat':
-            recs.append(cex('C20:helpers:params_from_backend', 'params_from_backend df/dt/tchans', dict(fn='helpers', which='params', bits=8), name=f"C20:helpers:params_from_backend:leaf{li}"))
+    # (branch counts that are odd / not powers of two included: the coarse channel width is sample_rate / num_branches)
+    for (nb, fftl, intf_) in PARAM_BACKENDS:
+        with frame_patches():
+            leaves = core.explore(lambda: FR.params_from_backend(obs_length=L, sample_rate=1024.0, num_branches=nb, fftlength=fftl, int_factor=intf_), pre, cap=4)
+        for li, leaf in enumerate(leaves):
+            pdict = leaf.value
+            dfv, dtv = 1024.0 / nb / fftl, intf_ / (1024.0 / nb / fftl)
+            T = lift(pdict['tchans'])
+            r, m = core.check(pre + leaf.pc + [z3.Or(lift(pdict['df']) != RV(dfv), lift(pdict['dt']) != RV(dtv), z3.Not(z3.And(T * RV(dtv) <= L.t, L.t < (T + 1) * RV(dtv))))], timeout_ms=60000)
+            recs.append(q(f"C20:helpers:params_from_backend:{(nb, fftl, intf_)}:leaf{li}", r))
+            if r == 'sat':
+                recs.append(cex('C20:helpers:params_from_backend', f'params_from_backend df/dt/tchans for num_branches={nb}, fftlength={fftl}, int_factor={intf_}', dict(fn='helpers', which='params', bits=8), name=f"C20:helpers:params_from_backend:{(nb, fftl, intf_)}:leaf{li}"))
     return recs
+
+
+PARAM_BACKENDS = ((8, 16, 2), (9, 4, 3), (15, 1, 1), (6, 2, 5))
 
 
 # ------------------------------------------------------------------ concrete oracles
@@ -517,9 +522,11 @@ def replay_helpers(p):
     be, _ = _real_backend()
     if not np.isclose(lu.get_unit_drift_rate(be, 16, 3), (be.chan_bw / 16) / (be.tbin * 16 * 3)):
         msgs.append('unit drift rate')
-    pd = stg.frame.params_from_backend(obs_length=1.3, sample_rate=1024.0, num_branches=8, fftlength=16, int_factor=2)
-    if pd['df'] != 8.0 or pd['dt'] != 0.25 or pd['tchans'] != 5:
-        msgs.append(f'params_from_backend {pd}')
+    for (nb, fftl, intf_) in PARAM_BACKENDS:
+        pd = stg.frame.params_from_backend(obs_length=1.3, sample_rate=1024.0, num_branches=nb, fftlength=fftl, int_factor=intf_)
+        dfv = 1024.0 / nb / fftl
+        if not np.isclose(pd['df'], dfv, rtol=1e-12) or not np.isclose(pd['dt'], intf_ / dfv, rtol=1e-12) or pd['tchans'] != int(1.3 / (intf_ / dfv)):
+            msgs.append(f'params_from_backend(num_branches={nb}, fftlength={fftl}, int_factor={intf_}) = {pd}, expected df={dfv}, dt={intf_ / dfv}, tchans={int(1.3 / (intf_ / dfv))}')
     return bool(msgs), '; '.join(msgs) or 'helpers agree'
 
 
